@@ -13,6 +13,7 @@ import (
 	"errors"
 	"flag"
 	"fmt"
+	"io"
 	"os"
 
 	"github.com/google/subcommands"
@@ -37,6 +38,7 @@ type cliWorld struct {
 	files       map[string]string // modelled file system: output path -> content ("" + absent flag below)
 	present     map[string]bool
 	handles     map[*os.File]string
+	offsets     map[*os.File]int
 	generateCalled int
 	tagsSeen    string
 	prefixSeen  string
@@ -64,7 +66,30 @@ func setupCLI(maxPkgs int) *cliWorld {
 		w.hasErrs = append(w.hasErrs, e)
 		w.hasContent = append(w.hasContent, c)
 		w.commitFails = append(w.commitFails, vBool(fmt.Sprintf("commitFails%d", i)))
-		w.fileState = append(w.fileState, vInt(fmt.Sprintf("fileState%d", i), 0, 2))
+		w.fileState = append(w.fileState, vInt(fmt.Sprintf("fileState%d", i), 0, 3))
+	}
+	w.files = map[string]string{}
+	w.present = map[string]bool{}
+	w.handles = map[*os.File]string{}
+	w.offsets = map[*os.File]int{}
+	// the prior content of an output path is materialised on first touch
+	touch := func(name string) {
+		if _, seen := w.files[name]; seen {
+			return
+		}
+		w.files[name] = ""
+		for i := 0; i < w.n; i++ {
+			if name == outPath(i, w.prefixSeen) {
+				switch vConc(w.fileState[i]) {
+				case 1:
+					w.files[name], w.present[name] = newContent(i), true
+				case 2:
+					w.files[name], w.present[name] = "// stale or hand-damaged content\n", true
+				case 3:
+					w.files[name], w.present[name] = newContent(i)+"func leftover() {}\n", true
+				}
+			}
+		}
 	}
 	vStub("os.Getwd", func() (string, error) {
 		if w.getwdFails {
@@ -84,21 +109,15 @@ func setupCLI(maxPkgs int) *cliWorld {
 		}
 		for i := 0; i < w.n; i++ {
 			if name == outPath(i, w.prefixSeen) {
-				switch vConc(w.fileState[i]) {
-				case 0:
+				touch(name)
+				if !w.present[name] {
 					return nil, errors.New("no such file")
-				case 1:
-					return []byte(newContent(i)), nil
-				default:
-					return []byte("// stale or hand-damaged content\n"), nil
 				}
+				return []byte(w.files[name]), nil
 			}
 		}
 		return nil, errors.New("no such file")
 	})
-	w.files = map[string]string{}
-	w.present = map[string]bool{}
-	w.handles = map[*os.File]string{}
 	fails := func(name string) bool {
 		for i := 0; i < w.n; i++ {
 			if name == outPath(i, w.prefixSeen) && vConcBool(w.commitFails[i]) {
@@ -106,23 +125,6 @@ func setupCLI(maxPkgs int) *cliWorld {
 			}
 		}
 		return false
-	}
-	// the prior content of an output path is materialised on first touch
-	touch := func(name string) {
-		if _, seen := w.files[name]; seen {
-			return
-		}
-		w.files[name] = ""
-		for i := 0; i < w.n; i++ {
-			if name == outPath(i, w.prefixSeen) {
-				switch vConc(w.fileState[i]) {
-				case 1:
-					w.files[name], w.present[name] = newContent(i), true
-				case 2:
-					w.files[name], w.present[name] = "// stale or hand-damaged content\n", true
-				}
-			}
-		}
 	}
 	writeFile := func(name string, data []byte, perm os.FileMode) error {
 		w.writes = append(w.writes, name)
@@ -171,6 +173,19 @@ func setupCLI(maxPkgs int) *cliWorld {
 	}
 	vStub("(*os.File).Write", fwrite)
 	vStub("(*os.File).WriteString", func(f *os.File, s string) (int, error) { return fwrite(f, []byte(s)) })
+	vStub("os.Open", func(name string) (*os.File, error) { return openFile(name, os.O_RDONLY, 0) })
+	vStub("(*os.File).Read", func(f *os.File, b []byte) (int, error) {
+		name := w.handles[f]
+		w.reads = append(w.reads, name)
+		content := w.files[name]
+		off := w.offsets[f]
+		if off >= len(content) {
+			return 0, io.EOF
+		}
+		n := copy(b, content[off:])
+		w.offsets[f] = off + n
+		return n, nil
+	})
 	vStub("(*os.File).Close", func(f *os.File) error { return nil })
 	vStub("(*os.File).Sync", func(f *os.File) error { return nil })
 	vStub("os.Remove", func(name string) error { w.removed = append(w.removed, name); return nil })
@@ -265,9 +280,6 @@ func H_cli_gen() {
 		vA("C17", known, "gen touches no file other than <prefix>wire_gen.go of the processed packages")
 	}
 	vA("C17", len(w.removed) == 0, "gen removes or renames nothing")
-	for _, r := range w.reads {
-		vA("C18", r == "/hdr", "gen never reads a previous output file (result cannot depend on it)")
-	}
 	if reached {
 		vA("C17", w.prefixSeen == cmd.prefixFileName && w.tagsSeen == cmd.tags, "options are passed through to generation")
 		if w.headerGiven {
